@@ -69,6 +69,7 @@ from vgi_rpc.rpc._types import (
 from vgi_rpc.shm import ShmPointerError, ShmSegment, is_shm_pointer_batch, maybe_write_to_shm, resolve_shm_batch
 from vgi_rpc.utils import (
     ArrowSerializableDataclass,
+    IPCError,
     IpcValidation,
     ValidatedReader,
     _is_optional_type,
@@ -429,6 +430,20 @@ def _read_request(
         batch, custom_metadata = reader.read_next_batch_with_custom_metadata()
     except OSError as exc:
         raise _as_framing_error(exc) from exc
+    except IPCError as exc:
+        # The stream is well framed but the batch's contents fail validation
+        # (a date64 that is not a whole day, invalid UTF-8, ...).  The batch
+        # itself has been read; consume the rest of the stream so the
+        # transport stays aligned and refuse the request — letting IPCError
+        # out would end the serve loop without a reply.
+        while True:
+            try:
+                reader.read_next_batch()
+            except IPCError:
+                continue
+            except StopIteration:
+                break
+        raise RpcError("ProtocolError", f"Request batch failed validation: {exc}", "") from exc
     except StopIteration:
         # A well-framed stream with a schema and EOS but no batch.  The stream
         # has been read to its end, so the transport is aligned for the next
@@ -558,7 +573,18 @@ def _read_request(
             )
         # Record the schema the kwargs came off, before as_py() erases it.
         _current_request_param_schema.set(batch.schema)
-        kwargs = {f.name: batch.column(i)[0].as_py() for i, f in enumerate(batch.schema)}
+        try:
+            kwargs = {f.name: batch.column(i)[0].as_py() for i, f in enumerate(batch.schema)}
+        except (ArithmeticError, ValueError, pa.ArrowException) as exc:
+            # A well-formed column can still hold a value Python cannot
+            # represent (a timestamp past year 9999 overflows datetime).  The
+            # request is fully read at this point: refuse it, do not let the
+            # conversion error end the connection unanswered.
+            raise RpcError(
+                "ProtocolError",
+                f"Request batch holds a parameter value that cannot be converted: {exc!r}",
+                "",
+            ) from exc
     finally:
         if release_shm is not None:
             # The offset is client-supplied: a region the allocator does not
